@@ -6,9 +6,21 @@ Streams
                     every float32 operation of the implementation is exact except the final
                     division by the reference length, which is IEEE-correctly rounded and is
                     reproduced as such).
-  mer             : functional.minimum_error_rate_loss / MinimumErrorRateLoss (tolerance stream;
-                    torch's own softmax output is handed to the model as exact rationals).
-  malformed       : wrong shapes / sample counts -> the documented error class.
+  mer             : functional.minimum_error_rate_loss / MinimumErrorRateLoss (tolerance stream). The
+                    softmax weights are computed HERE, independently of the code under test and of
+                    torch: exact rational max-shift, 60-digit decimal exp, rounded to 40 decimal
+                    places (softmax_oracle); they are handed to the model and used by the predicate.
+                    log_probs classes per batch row: ordinary, normalised, all very negative with small
+                    differences (joint log-probabilities of long hypotheses; around and far beyond the
+                    float32 / float64 exp underflow thresholds), large positive unnormalised scores
+                    (beyond the exp overflow thresholds), one dominant sample, huge spread, exact
+                    ties, -inf entries (zero-probability samples); float32 and float64.
+  every stream    : memory layout of every tensor argument (contiguous / transposed storage / slice
+                    of a wider buffer / every-other-element stride), int32 and int64 tokens, options
+                    passed explicitly or left to the documented defaults, arguments not modified.
+  malformed       : wrong shapes / sample counts -> the documented error class (8 fixed calls).
+  shapes          : random argument-shape sets vs. the model's checkPairShapes / checkMerShapes
+                    (accepted with the documented result shape, or RuntimeError).
 
 Correspondence: impl == Lean model (exact tie-breaking of the paired table).
 Predicate (on the implementation's output, oracle = Lean spec computed without the model):
@@ -37,6 +49,15 @@ OTHER_TRIPLES = [
 EQUAL_TRIPLES = [("1", "1", "1"), ("1/2", "1/2", "1/2"), ("2", "2", "2"), ("3", "3", "3"),
                  ("1/4", "1/4", "1/4"), ("3/2", "3/2", "3/2")]
 ABSENT_EOS = 9
+MEMS = ["contig", "contig", "transposed", "slice", "step"]
+# float32 exp underflows to a denormal below -87.3 and to 0 below -103.3, overflows above 88.7;
+# float64: -708.4 / -745.1 / 709.8. The offsets sit around and far beyond these thresholds.
+NEG_OFFSETS = [-30, -86, -89, -96, -104, -120, -200, -700, -712, -746, -1000, -10000, -100000]
+POS_OFFSETS = [30, 87, 90, 120, 700, 712, 1000, 10000, 100000]
+LP_CLASSES = ["ordinary", "ordinary", "normalised", "very_negative", "very_negative", "large_positive",
+              "dominant", "spread", "ties", "neg_inf"]
+DEFAULTS = {"eos": None, "include_eos": True, "norm": True, "batch_first": False, "ins": "1", "del": "1",
+            "sub": "1", "padding": -100, "exclude_last": False, "sub_avg": True, "reduction": "mean"}
 
 
 def F(s):
@@ -81,17 +102,31 @@ class C02(PropertyCheck):
             "module entry points, zero-size dimensions; cost triples: equal (shortcut), unequal with "
             "ins+del=sub and other ties, random from {1/4,1/2,1,3/2,2,3,4}^3; exhaustive sub-grid: all "
             "pairs over {0,1} with lengths <=3 (eos-padded, ragged) x 6 cost triples x norm x kind. "
-            "mer: N<=3, M in 2..4, 2-D and 3-D ref, both layouts, sub_avg both, all reductions. "
+            "mer: N<=3, M in 2..4, 2-D and 3-D ref, both layouts, sub_avg both, all reductions; "
+            "log_probs per batch row from {ordinary U(-6,0), normalised, all very negative (offsets -30 .. "
+            "-1e5, i.e. around and beyond the float32/float64 exp underflow points) with differences "
+            "<= 6, large positive (offsets 30 .. 1e5, beyond the exp overflow points), one dominant "
+            "sample, spread up to +-1e5, exact ties, 1..M-1 entries -inf}, float32 and float64. "
+            "every stream: tensor arguments contiguous / transposed storage / slice of a wider buffer / "
+            "every-other-element stride; int64 / int32 tokens; options passed explicitly or (30%) left "
+            "to the documented defaults; arguments compared before/after the call. "
+            "shapes: 150 (thorough 1500) argument-shape sets of rank 1..4, well-formed or damaged in 1-2 places "
+            "(dimension added / dropped / swapped / resized, unknown reduction, one sample) -> accepted "
+            "with the documented result shape, or RuntimeError. "
             "non-trivial: some column has both cut sequences non-empty, not identical; distinct by "
-            "(cut pairs, costs, option cell)")
+            "(cut pairs, costs, option cell, memory layout, log_probs classes)")
     assumptions = [
         "float32 arithmetic of the implementation is exact on the generated domain (dyadic costs, "
         "small integers) except the final division by the reference length, which is reproduced as "
         "the IEEE correctly-rounded float32 quotient",
-        "torch.nn.functional.softmax is a trusted primitive: its float32 output is handed to the "
-        "model as exact rationals; the MER stream compares with rtol 1e-5 / atol 5e-6",
+        "the softmax weights of the loss are an input of the model; they are computed by the harness "
+        "without torch (exact rational max-shift, 60-digit decimal exp, rounded to 40 decimal places) "
+        "and the MER stream compares with rtol 1e-5 / atol 5e-6 (float32 / float64 rounding of the "
+        "implementation's exp, sum, product and mean() / sum() order is not modelled)",
         "the repairs fixes/C01-lens-from-eos-empty.diff and fixes/C01-prefix-exclude-last-empty-hyp.diff "
-        "(owned by C01) are part of the modelled behaviour for zero-size dimensions",
+        "(owned by C01) are part of the modelled behaviour for zero-size dimensions; "
+        "fixes/C02-mer-strided-inputs.diff for arguments whose batch x sample dimensions cannot be "
+        "merged by view()",
     ]
     exhaustive = {"quick": False, "thorough": False}
     quick_budget_s = 75
@@ -158,7 +193,27 @@ class C02(PropertyCheck):
         if kind == "prefix":
             case["exclude_last"] = rng.random() < 0.5
             case["padding"] = rng.choice([-100, -1, 0, 7])
+        self._call_style(rng, case)
         return case
+
+    def _call_style(self, rng, case):
+        """how the arguments reach the library: memory layout, token dtype, and whether options that
+        have their documented default value are passed at all (then some options are drawn again
+        so that the default value is frequent)"""
+        case["mem"] = rng.choice(MEMS)
+        case["tok_dtype"] = rng.choice(["int64", "int64", "int32"])
+        case["omit_defaults"] = rng.random() < 0.3
+        if case["omit_defaults"]:
+            dflt = dict(DEFAULTS, include_eos=case["kind"] != "scalar")
+            for k in ("include_eos", "norm", "exclude_last", "padding", "sub_avg", "reduction"):
+                if k in case and rng.random() < 0.5:
+                    case[k] = dflt[k]
+            if rng.random() < 0.5:
+                case["ins"], case["del"], case["sub"] = "1", "1", "1"
+            else:
+                for k in ("ins", "del", "sub"):
+                    if rng.random() < 0.5:
+                        case[k] = "1"
 
     def _exhaustive(self, rng, tier):
         """all pairs over {0,1}, lengths <= 3, eos-padded to R = H = 3 (eos = 2), ragged batches"""
@@ -184,7 +239,8 @@ class C02(PropertyCheck):
                     case = {"kind": kind, "entry": "functional", "N": len(grp), "R": 3, "H": 3,
                             "batch_first": bf, "ref": layout(refc, bf, 3), "hyp": layout(hypc, bf, 3),
                             "eos": 2, "include_eos": inc, "norm": norm, "ins": ins, "del": dl, "sub": sub,
-                            "stream": "exhaustive"}
+                            "stream": "exhaustive", "mem": MEMS[(i // chunk + ci) % len(MEMS)],
+                            "tok_dtype": "int32" if (i // chunk) % 5 == 2 else "int64"}
                     if kind == "prefix":
                         case["exclude_last"] = (i // chunk) % 4 == 1
                         case["padding"] = -100
@@ -210,17 +266,62 @@ class C02(PropertyCheck):
             ref = refs if bf else [[[refs[n][m][r] for m in range(M)] for n in range(N)] for r in range(R)]
         hyp = hyps if bf else [[[hyps[n][m][h] for m in range(M)] for n in range(N)] for h in range(H)]
         ins, dl, sub = self._costs(rng)
-        # log-probabilities: arbitrary floats (tolerance stream), kept as exact strings of float32 values
-        import numpy as np
-        lp = [[frac_str(float(np.float32(rng.uniform(-6, 0)))) for _ in range(M)] for _ in range(N)]
-        return {
+        lp, lp_dtype, lp_classes = self._log_probs(rng, N, M)
+        case = {
             "kind": "mer", "entry": rng.choice(["functional", "module"]),
             "N": N, "M": M, "R": R, "H": H, "batch_first": bf, "ref_dim": ref_dim,
-            "ref": ref, "hyp": hyp, "log_probs": lp,
+            "ref": ref, "hyp": hyp, "log_probs": lp, "lp_dtype": lp_dtype, "lp_classes": lp_classes,
             "eos": eos, "include_eos": rng.random() < 0.5, "norm": rng.random() < 0.6,
             "sub_avg": rng.random() < 0.5, "reduction": rng.choice(["mean", "sum", "none"]),
             "ins": ins, "del": dl, "sub": sub,
         }
+        self._call_style(rng, case)
+        return case
+
+    def _log_probs(self, rng, N, M):
+        """(N, M) scores as exact strings of float32 / float64 values ('-inf' allowed, never a whole
+        row); every batch row draws its own class."""
+        import math
+        import numpy as np
+        dtype = rng.choice(["float32", "float32", "float64"])
+        rnd = (lambda v: float(np.float32(v))) if dtype == "float32" else float
+        rows, classes = [], []
+        for _ in range(N):
+            cls = rng.choice(LP_CLASSES)
+            classes.append(cls)
+            if cls == "normalised":
+                p = [rng.random() + 1e-3 for _ in range(M)]
+                row = [math.log(x / sum(p)) for x in p]
+            elif cls == "very_negative":   # joint log-probabilities of long hypotheses
+                off = rng.choice(NEG_OFFSETS)
+                row = [off + rng.uniform(-3, 3) for _ in range(M)]
+            elif cls == "large_positive":  # unnormalised scores
+                off = rng.choice(POS_OFFSETS)
+                row = [off + rng.uniform(-3, 3) for _ in range(M)]
+            elif cls == "dominant":
+                off = rng.choice([0.0] + NEG_OFFSETS + POS_OFFSETS)
+                top = rng.randrange(M)
+                row = [off - (0 if m == top else rng.choice([20, 50, 100, 120, 800, 2000]) * rng.uniform(1, 1.5))
+                       for m in range(M)]
+            elif cls == "spread":
+                sc = rng.choice([100, 2000, 100000])
+                row = [rng.uniform(-sc, sc) for _ in range(M)]
+            elif cls == "ties":
+                v = rng.choice([0.0, -1.5] + NEG_OFFSETS + POS_OFFSETS)
+                row = [v] * M
+                if M > 2 and rng.random() < 0.5:
+                    row[rng.randrange(M)] = v - rng.choice([0.5, 1, 200])
+            else:  # ordinary, neg_inf
+                row = [rng.uniform(-6, 0) for _ in range(M)]
+                if cls == "neg_inf" and rng.random() < 0.4:
+                    off = rng.choice(NEG_OFFSETS)
+                    row = [off + x for x in row]
+            row = [frac_str(rnd(x)) for x in row]
+            if cls == "neg_inf":
+                for m in rng.sample(range(M), rng.randint(1, M - 1)):
+                    row[m] = "-inf"
+            rows.append(row)
+        return rows, dtype, classes
 
     def _malformed(self, rng):
         yield {"kind": "malformed", "what": "batch_mismatch", "expect": "RuntimeError"}
@@ -232,14 +333,48 @@ class C02(PropertyCheck):
         yield {"kind": "malformed", "what": "mer_hyp_2d", "expect": "RuntimeError"}
         yield {"kind": "malformed", "what": "module_bad_reduction", "expect": "ValueError"}
 
+    def _shapes_case(self, rng):
+        """argument shapes: a well-formed set, usually damaged in one or two places"""
+        bf = rng.random() < 0.5
+        N, M, R, H = rng.randint(1, 3), rng.randint(1, 3), rng.randint(0, 3), rng.randint(0, 3)
+        what = rng.choice(["pair", "pair", "mer", "mer", "mer"])
+        case = {"kind": "shapes", "what": what, "batch_first": bf}
+        if what == "pair":
+            case["fn"] = rng.choice(["error_rate", "prefix_error_rates"])
+            shapes = {"ref": [N, R] if bf else [R, N], "hyp": [N, H] if bf else [H, N]}
+        else:
+            if rng.random() < 0.6:
+                M = max(M, 2)
+            ref = ([N, R] if bf else [R, N]) if rng.random() < 0.5 else ([N, M, R] if bf else [R, N, M])
+            shapes = {"lp": [N, M], "ref": ref, "hyp": [N, M, H] if bf else [H, N, M]}
+            case["reduction"] = rng.choice(["mean", "sum", "none", "none", "mean", "max", "Mean", ""])
+        for _ in range(rng.choice([0, 0, 1, 1, 1, 2])):
+            k = rng.choice(sorted(shapes))
+            sh = list(shapes[k])
+            r = rng.random()
+            if r < 0.3 and len(sh) < 4:
+                sh.insert(rng.randint(0, len(sh)), rng.randint(1, 3))
+            elif r < 0.55 and len(sh) > 1:
+                sh.pop(rng.randrange(len(sh)))
+            elif r < 0.7 and len(sh) > 1:
+                i, j = rng.sample(range(len(sh)), 2)
+                sh[i], sh[j] = sh[j], sh[i]
+            else:
+                sh[rng.randrange(len(sh))] = rng.randint(1, 4)
+            shapes[k] = sh
+        case.update(shapes)
+        return case
+
     def cases(self, rng, tier):
         if tier == "quick":
-            n_er, n_mer, maxlen = 420, 130, 6
+            n_er, n_mer, maxlen, n_sh = 420, 170, 6, 150
         elif tier == "thorough":
-            n_er, n_mer, maxlen = 5000, 1200, 8
+            n_er, n_mer, maxlen, n_sh = 5000, 1500, 8, 1500
         else:  # search
-            n_er, n_mer, maxlen = 6000, 600, 7
+            n_er, n_mer, maxlen, n_sh = 6000, 800, 7, 300
         yield from self._malformed(rng)
+        for _ in range(n_sh):
+            yield self._shapes_case(rng)
         # interleave so that a deadline cuts every stream proportionally
         ex = self._exhaustive(rng, tier)
         done_ex = False
@@ -260,10 +395,22 @@ class C02(PropertyCheck):
 
     # ------------------------------------------------------------------ implementation
     @staticmethod
-    def _tensor(data, shape):
+    def _tensor(data, shape, case=None):
+        """token tensor with the case's dtype and memory layout"""
         import torch
-        return torch.tensor(data, dtype=torch.long).reshape(shape) if _numel(shape) else \
-            torch.zeros(shape, dtype=torch.long)
+        dt = torch.int32 if (case or {}).get("tok_dtype") == "int32" else torch.long
+        t = torch.tensor(data, dtype=dt).reshape(shape) if _numel(shape) else torch.zeros(shape, dtype=dt)
+        return _strided(t, (case or {}).get("mem", "contig"))
+
+    @staticmethod
+    def _kwargs(case, kw):
+        """drop the options that have their documented default when the case says so"""
+        if not case.get("omit_defaults"):
+            return kw
+        dflt = {"eos": None, "include_eos": case["kind"] != "scalar", "norm": True, "batch_first": False,
+                "ins_cost": 1.0, "del_cost": 1.0, "sub_cost": 1.0, "padding": -100, "exclude_last": False,
+                "sub_avg": True, "reduction": "mean"}
+        return {k: v for k, v in kw.items() if not (k in dflt and type(v) is type(dflt[k]) and v == dflt[k])}
 
     def _er_call(self, case, ref, hyp):
         import pydrobert.torch.functional as Fn
@@ -273,6 +420,8 @@ class C02(PropertyCheck):
                   del_cost=float(F(case["del"])), sub_cost=float(F(case["sub"])))
         if case["kind"] == "prefix":
             kw.update(padding=case["padding"], exclude_last=case["exclude_last"])
+        kw = self._kwargs(case, kw)
+        if case["kind"] == "prefix":
             if case["entry"] == "module":
                 return Md.PrefixErrorRates(warn=False, **kw)(ref, hyp)
             return Fn.prefix_error_rates(ref, hyp, warn=False, **kw)
@@ -287,14 +436,18 @@ class C02(PropertyCheck):
             warnings.simplefilter("ignore")
             if case["kind"] == "malformed":
                 return self._run_malformed(case)
+            if case["kind"] == "shapes":
+                return self._run_shapes(case)
             if case["kind"] == "mer":
                 return self._run_mer(case)
             N, R, H, bf = case["N"], case["R"], case["H"], case["batch_first"]
-            ref = self._tensor(case["ref"], (N, R) if bf else (R, N))
-            hyp = self._tensor(case["hyp"], (N, H) if bf else (H, N))
+            ref = self._tensor(case["ref"], (N, R) if bf else (R, N), case)
+            hyp = self._tensor(case["hyp"], (N, H) if bf else (H, N), case)
+            before = (ref.clone(), hyp.clone())
             out = self._er_call(case, ref, hyp)
             return {"shape": list(out.shape), "dtype": str(out.dtype).replace("torch.", ""),
-                    "out": _fr(out.tolist())}
+                    "out": _fr(out.tolist()),
+                    "args_unchanged": bool(ref.equal(before[0]) and hyp.equal(before[1]))}
 
     def _run_mer(self, case):
         import torch
@@ -302,19 +455,25 @@ class C02(PropertyCheck):
         import pydrobert.torch.modules as Md
         N, M, R, H, bf = case["N"], case["M"], case["R"], case["H"], case["batch_first"]
         if case["ref_dim"] == 2:
-            ref = self._tensor(case["ref"], (N, R) if bf else (R, N))
+            ref = self._tensor(case["ref"], (N, R) if bf else (R, N), case)
         else:
-            ref = self._tensor(case["ref"], (N, M, R) if bf else (R, N, M))
-        hyp = self._tensor(case["hyp"], (N, M, H) if bf else (H, N, M))
-        lp = torch.tensor([[float(F(x)) for x in row] for row in case["log_probs"]], dtype=torch.float32)
+            ref = self._tensor(case["ref"], (N, M, R) if bf else (R, N, M), case)
+        hyp = self._tensor(case["hyp"], (N, M, H) if bf else (H, N, M), case)
+        lp = _strided(torch.tensor([[float(x) if x == "-inf" else float(F(x)) for x in row]
+                                    for row in case["log_probs"]],
+                                   dtype=getattr(torch, case.get("lp_dtype", "float32"))),
+                      case.get("mem", "contig"))
+        before = (lp.clone(), ref.clone(), hyp.clone())
         kw = dict(eos=case["eos"], include_eos=case["include_eos"], sub_avg=case["sub_avg"],
                   batch_first=bf, norm=case["norm"], ins_cost=float(F(case["ins"])),
                   del_cost=float(F(case["del"])), sub_cost=float(F(case["sub"])),
                   reduction=case["reduction"])
+        ckw = self._kwargs(case, kw)
         if case["entry"] == "module":
-            out = Md.MinimumErrorRateLoss(**kw)(lp, ref, hyp, warn=False)
+            out = Md.MinimumErrorRateLoss(**ckw)(lp, ref, hyp, warn=False)
         else:
-            out = Fn.minimum_error_rate_loss(lp, ref, hyp, warn=False, **kw)
+            out = Fn.minimum_error_rate_loss(lp, ref, hyp, warn=False, **ckw)
+        unchanged = bool(lp.equal(before[0]) and ref.equal(before[1]) and hyp.equal(before[2]))
         # the error rate of every documented pair, one isolated pair per call
         ers = []
         for n in range(N):
@@ -327,12 +486,38 @@ class C02(PropertyCheck):
                                   warn=False)
                 row.append(frac_str(e.item()))
             ers.append(row)
-        return {"shape": list(out.shape), "out": _fr(out.tolist()), "pair_ers": ers}
+        return {"shape": list(out.shape), "dtype": str(out.dtype).replace("torch.", ""),
+                "out": _fr(out.tolist()), "pair_ers": ers, "args_unchanged": unchanged}
 
     def _softmax(self, case):
+        """softmax weights of the case's log_probs, computed independently of the library and of
+        torch (see softmax_oracle); memoised per case object"""
+        key = repr(case["log_probs"])
+        if getattr(self, "_sm_key", None) != key:
+            self._sm_key = key
+            self._sm_val = [[frac_str(v) for v in softmax_oracle(row)] for row in case["log_probs"]]
+        return self._sm_val
+
+    def _softmax_torch(self, case):
+        """torch's own softmax on the same values (only to measure the trusted primitive against
+        the oracle; statistics in the evidence)"""
         import torch
-        lp = torch.tensor([[float(F(x)) for x in row] for row in case["log_probs"]], dtype=torch.float32)
-        return [[frac_str(v) for v in row] for row in torch.nn.functional.softmax(lp, 1).tolist()]
+        lp = torch.tensor([[float(x) if x == "-inf" else float(F(x)) for x in row]
+                           for row in case["log_probs"]],
+                          dtype=getattr(torch, case.get("lp_dtype", "float32")))
+        return torch.nn.functional.softmax(lp, 1).tolist()
+
+    def _run_shapes(self, case):
+        import torch
+        import pydrobert.torch.functional as Fn
+        z = lambda sh: torch.zeros(tuple(sh), dtype=torch.long)
+        bf = case["batch_first"]
+        if case["what"] == "pair":
+            out = getattr(Fn, case["fn"])(z(case["ref"]), z(case["hyp"]), batch_first=bf, warn=False)
+        else:
+            out = Fn.minimum_error_rate_loss(torch.zeros(tuple(case["lp"])), z(case["ref"]), z(case["hyp"]),
+                                             batch_first=bf, reduction=case["reduction"], warn=False)
+        return {"accepted": True, "shape": list(out.shape)}
 
     def _run_malformed(self, case):
         import torch
@@ -362,6 +547,9 @@ class C02(PropertyCheck):
     def model_request(self, case):
         if case["kind"] == "malformed":
             return None
+        if case["kind"] == "shapes":
+            return {"op": "c02.shapes", "case": {k: case[k] for k in ("what", "batch_first", "ref", "hyp", "lp",
+                                                                       "reduction") if k in case}}
         base = {k: case[k] for k in ("ref", "hyp", "N", "batch_first", "eos", "include_eos", "norm",
                                      "ins", "del", "sub")}
         base["brute_max"] = 4 if case.get("stream") == "exhaustive" else 3
@@ -378,6 +566,11 @@ class C02(PropertyCheck):
     def compare(self, case, impl, model):
         if case["kind"] == "malformed":
             return []
+        if case["kind"] == "shapes":
+            if model["accepted"] != ("error" not in impl):
+                return [f"model {'accepts' if model['accepted'] else 'rejects'} the shapes, implementation: "
+                        f"{impl.get('error', 'no error')}"]
+            return []
         if "error" in impl:
             return [f"implementation raised {impl['error']}: {impl.get('message')}"]
         out = []
@@ -386,8 +579,8 @@ class C02(PropertyCheck):
             if len(a) != len(b):
                 return [f"loss shape differs: impl {impl['shape']} model has {len(b)} entries"]
             for i, (x, y) in enumerate(zip(a, b)):
-                if not _close(F(x), F(y)):
-                    out.append(f"loss[{i}] impl={float(F(x))!r} model={float(F(y))!r}")
+                if not _close(x, y):
+                    out.append(f"loss[{i}] impl={_show(x)} model={_show(y)}")
             return out[:4]
         exp = _map(model["model"], lambda q: frac_str(f32_quot(q)))
         if impl["out"] != exp:
@@ -402,13 +595,20 @@ class C02(PropertyCheck):
                 return [(f"malformed input '{case['what']}': expected {case['expect']}, got "
                          f"{got or impl.get('out')}", None)]
             return []
+        if case["kind"] == "shapes":
+            return self._shapes_predicate(case, impl, model)
         if "error" in impl:
-            return [(f"{case['kind']} raised {impl['error']}: {impl.get('message')}",
-                     "C02.raises." + str(impl["error"]))]
+            sig = "C02.raises." + str(impl["error"])
+            if (case["kind"] == "mer" and case.get("mem") in ("slice", "step") and impl["error"] == "RuntimeError"
+                    and "view size is not compatible" in str(impl.get("message"))):
+                sig = "C02.mer.strided_args_raise"   # repaired by fixes/C02-mer-strided-inputs.diff
+            return [(f"{case['kind']} raised {impl['error']}: {impl.get('message')}", sig)]
         if model is None:
             return []
         equal = F(case["ins"]) == F(case["del"]) == F(case["sub"])
         fails = []
+        if impl.get("args_unchanged") is False:
+            fails.append(("the call modified one of its tensor arguments in place", "C02.args_modified"))
 
         def check_value(where, v, info, norm_mode, k=None):
             """v: implementation's value (Fraction); info: oracle of the pair."""
@@ -482,6 +682,11 @@ class C02(PropertyCheck):
                     check_value(f"pair ({n},{m}) error rate", F(impl["pair_ers"][n][m]),
                                 spec[n][m]["pair"], "scalar")
             w = [[F(x) for x in row] for row in self._softmax(case)]
+            tw = self._softmax_torch(case)
+            st = self.stats
+            st["softmax_rows_checked"] = st.get("softmax_rows_checked", 0) + N
+            dev = max(abs(float(w[n][m]) - tw[n][m]) for n in range(N) for m in range(M))
+            st["torch_softmax_max_abs_dev_from_oracle"] = max(st.get("torch_softmax_max_abs_dev_from_oracle", 0.0), dev)
             er = [[F(x) for x in row] for row in impl["pair_ers"]]
             el = []
             for n in range(N):
@@ -492,17 +697,56 @@ class C02(PropertyCheck):
                     return fails + [(f"loss shape {impl['shape']} != [{N},{M}]", "C02.mer.shape")]
                 for n in range(N):
                     for m in range(M):
-                        if not _close(F(impl["out"][n][m]), el[n][m]):
-                            fails.append((f"loss[{n}][{m}]={float(F(impl['out'][n][m]))!r} != softmax*(er-mean)="
-                                          f"{float(el[n][m])!r}", "C02.mer.value"))
+                        if not _close(impl["out"][n][m], el[n][m]):
+                            fails.append((f"loss[{n}][{m}]={_show(impl['out'][n][m])} != softmax*(er-mean)="
+                                          f"{float(el[n][m])!r} (log_probs row {n}: "
+                                          f"{[_show(x) for x in case['log_probs'][n]]}, oracle softmax "
+                                          f"{[float(x) for x in w[n]]})", "C02.mer.value"))
             else:
                 tot = sum(sum(r) for r in el)
                 if case["reduction"] == "mean":
                     tot = tot / (N * M)
-                if impl["shape"] != [] or not _close(F(impl["out"]), tot):
-                    fails.append((f"loss={impl['out']} != {case['reduction']} of softmax*(er-mean)={float(tot)!r}",
+                if impl["shape"] != [] or not _close(impl["out"], tot):
+                    fails.append((f"loss={_show(impl['out'])} != {case['reduction']} of softmax*(er-mean)="
+                                  f"{float(tot)!r} (log_probs {[[_show(x) for x in r] for r in case['log_probs']]})",
                                   "C02.mer.value"))
         return fails[:6]
+
+    def _shapes_predicate(self, case, impl, model):
+        """documented behaviour: RuntimeError exactly for ill-formed argument shapes (oracle: python
+        re-statement of C02_pair_shapes / C02_mer_shapes, independent of the driver's answer)"""
+        bf = case["batch_first"]
+        ref, hyp = case["ref"], case["hyp"]
+        want_shape = None
+        if case["what"] == "pair":
+            ok = len(ref) == 2 and len(hyp) == 2 and ref[0 if bf else 1] == hyp[0 if bf else 1]
+            if ok:
+                N, H = (hyp[0], hyp[1]) if bf else (hyp[1], hyp[0])
+                want_shape = [N] if case["fn"] == "error_rate" else ([N, H + 1] if bf else [H + 1, N])
+        else:
+            lp = case["lp"]
+            ok = len(lp) == 2 and len(hyp) == 3
+            if ok:
+                N, M = (hyp[0], hyp[1]) if bf else (hyp[1], hyp[2])
+                ok = lp == [N, M] and M >= 2 and case["reduction"] in ("mean", "sum", "none") and (
+                    (len(ref) == 2 and ref[0 if bf else 1] == N)
+                    or (len(ref) == 3 and ((ref[0], ref[1]) if bf else (ref[1], ref[2])) == (N, M)))
+                if ok:
+                    want_shape = [N, M] if case["reduction"] == "none" else []
+        fails = []
+        if model is not None and model["accepted"] != ok:
+            raise AssertionError(f"driver and python oracle disagree on {case}")
+        if ok:
+            if "error" in impl:
+                fails.append((f"well-formed arguments {case} raised {impl['error']}: {impl.get('message')}",
+                              "C02.args.rejected"))
+            elif impl["shape"] != want_shape:
+                fails.append((f"result shape {impl['shape']} != {want_shape} for {case}", "C02.shape"))
+        else:
+            if impl.get("error") != "RuntimeError":
+                fails.append((f"ill-formed arguments {case}: expected RuntimeError, got "
+                              f"{impl.get('error', 'no error')}", "C02.args.accepted"))
+        return fails
 
     # ------------------------------------------------------------------ evidence helpers
     def _pairs(self, case):
@@ -516,20 +760,26 @@ class C02(PropertyCheck):
                  tuple(py_cut(h, case["eos"], case["include_eos"]))) for r, h in zip(rc, hc)]
 
     def nontrivial(self, case, impl):
-        if case["kind"] == "malformed":
+        if case["kind"] in ("malformed", "shapes"):
             return False
         return any(r and h and r != h for r, h in self._pairs(case))
 
     def key(self, case):
         if case["kind"] == "malformed":
             return "malformed:" + case["what"]
+        if case["kind"] == "shapes":
+            return "shapes:" + repr(sorted(case.items()))
         opt = tuple(case.get(k) for k in ("kind", "include_eos", "norm", "batch_first", "exclude_last",
-                                          "sub_avg", "reduction", "ref_dim", "entry"))
+                                          "sub_avg", "reduction", "ref_dim", "entry", "mem", "lp_dtype"))
+        opt += (tuple(case.get("lp_classes", ())),)
         return repr((sorted(set(self._pairs(case))), case["ins"], case["del"], case["sub"], opt))
 
     def tags(self, case, impl):
         if case["kind"] == "malformed":
             return ["malformed:" + case["what"]]
+        if case["kind"] == "shapes":
+            return ["kind=shapes", "shapes:" + case["what"],
+                    "shapes:" + ("rejected" if isinstance(impl, dict) and "error" in impl else "accepted")]
         equal = F(case["ins"]) == F(case["del"]) == F(case["sub"])
         t = ["kind=" + case["kind"], "entry=" + case.get("entry", "functional"),
              "costs=" + ("equal(shortcut)" if equal else
@@ -539,9 +789,16 @@ class C02(PropertyCheck):
              f"R={case['R']}", f"H={case['H']}", f"N={case['N']}"]
         if case["kind"] == "prefix":
             t.append(f"exclude_last={case['exclude_last']}")
+        t += ["mem=" + case.get("mem", "contig"), "tok_dtype=" + case.get("tok_dtype", "int64"),
+              f"omit_defaults={bool(case.get('omit_defaults'))}"]
         if case["kind"] == "mer":
             t += [f"M={case['M']}", f"ref_dim={case['ref_dim']}", f"sub_avg={case['sub_avg']}",
-                  "reduction=" + case["reduction"]]
+                  "reduction=" + case["reduction"], "lp_dtype=" + case.get("lp_dtype", "float32")]
+            t += sorted({"log_probs=" + c for c in case.get("lp_classes", ["ordinary"])})
+            fin = [abs(float(F(x))) for row in case["log_probs"] for x in row if x != "-inf"]
+            big = max(fin) if fin else 0
+            t.append("log_probs_magnitude=" + ("<=10" if big <= 10 else "<=88" if big <= 88 else
+                                               "<=745" if big <= 745 else ">745"))
         if case.get("stream") == "exhaustive":
             t.append("stream=exhaustive")
         prs = self._pairs(case)
@@ -552,12 +809,30 @@ class C02(PropertyCheck):
         return t
 
     def shrink(self, case):
-        if case["kind"] in ("malformed", "mer"):
+        if case["kind"] in ("malformed", "mer", "shapes"):
             if case["kind"] == "mer":
-                for k, v in (("reduction", "none"), ("sub_avg", False), ("norm", False), ("entry", "functional")):
-                    if case[k] != v:
+                for k, v in (("reduction", "none"), ("sub_avg", False), ("norm", False), ("entry", "functional"),
+                             ("mem", "contig"), ("tok_dtype", "int64"), ("omit_defaults", False),
+                             ("lp_dtype", "float32")):
+                    if case.get(k, v) != v:
                         c = dict(case)
                         c[k] = v
+                        if k == "lp_dtype":   # the scores must stay exact values of the dtype
+                            import numpy as np
+                            c["log_probs"] = [[x if x == "-inf" else frac_str(float(np.float32(float(F(x)))))
+                                               for x in row] for row in case["log_probs"]]
+                        yield c
+                N, bf = case["N"], case["batch_first"]
+                if N > 1:   # drop one batch element
+                    for n in range(N):
+                        c = dict(case)
+                        c["N"] = N - 1
+                        drop = (lambda t: t[:n] + t[n + 1:]) if bf else \
+                            (lambda t: [pl[:n] + pl[n + 1:] for pl in t])
+                        c["ref"], c["hyp"] = drop(case["ref"]), drop(case["hyp"])
+                        c["log_probs"] = case["log_probs"][:n] + case["log_probs"][n + 1:]
+                        if "lp_classes" in case:
+                            c["lp_classes"] = case["lp_classes"][:n] + case["lp_classes"][n + 1:]
                         yield c
             return
         N, R, H, bf = case["N"], case["R"], case["H"], case["batch_first"]
@@ -581,7 +856,8 @@ class C02(PropertyCheck):
             yield rebuild(rc, [c[:-1] for c in hc])
             yield rebuild(rc, [c[1:] for c in hc])
         for k, v in (("entry", "functional"), ("batch_first", False), ("norm", False), ("include_eos", False),
-                     ("exclude_last", False)):
+                     ("exclude_last", False), ("mem", "contig"), ("tok_dtype", "int64"),
+                     ("omit_defaults", False)):
             if k in case and case[k] != v:
                 yield rebuild(rc, hc, **{k: v})
         if case["eos"] is not None and all(case["eos"] not in c for c in rc + hc):
@@ -613,9 +889,67 @@ def _flat(x):
     return [x]
 
 
+def _num(x):
+    """'n/d' | number -> Fraction; 'nan' / 'inf' / '-inf' -> None (not a finite number)"""
+    if isinstance(x, str) and x in ("nan", "inf", "-inf"):
+        return None
+    return Fraction(x)
+
+
 def _close(a, b, rtol=1e-5, atol=5e-6):
-    a, b = Fraction(a), Fraction(b)
+    a, b = _num(a), _num(b)
+    if a is None or b is None:
+        return False
     return abs(a - b) <= atol + rtol * max(abs(a), abs(b))
+
+
+def _show(x):
+    v = _num(x)
+    return x if v is None else repr(float(v))
+
+
+def softmax_oracle(row):
+    """Softmax of one row of scores given as exact strings ('n/d', or '-inf' = probability 0), without
+    torch and without floats: the maximum is subtracted in exact rational arithmetic (so magnitude
+    never matters, only differences), exp is python's correctly-rounded decimal exp at 60 digits,
+    the normalised weights are rounded to 40 decimal places. -> list of Fractions."""
+    from decimal import Decimal, localcontext
+    xs = [None if x == "-inf" else Fraction(x) for x in row]
+    mx = max(x for x in xs if x is not None)
+    with localcontext() as ctx:
+        ctx.prec = 60
+        es = []
+        for x in xs:
+            if x is None:
+                es.append(Decimal(0))
+            else:
+                d = x - mx
+                es.append((Decimal(d.numerator) / Decimal(d.denominator)).exp())
+        z = sum(es)
+        ws = [(e / z).quantize(Decimal(1).scaleb(-40)) for e in es]
+    return [Fraction(w) for w in ws]
+
+
+def _strided(t, mode):
+    """the same tensor (shape, dtype, values) with another memory layout"""
+    import torch
+    if mode == "contig" or t.dim() == 0:
+        return t
+    rev = list(reversed(range(t.dim())))
+    if mode == "transposed":      # storage laid out with the dimensions reversed
+        return t.permute(*rev).contiguous().permute(*rev)
+    fill = 1 if not t.is_floating_point() else 0.5
+    if mode == "slice":           # interior of a buffer that is wider by one on every side
+        big = torch.full([n + 2 for n in t.shape], fill, dtype=t.dtype)
+        idx = tuple(slice(1, n + 1) for n in t.shape)
+        big[idx] = t
+        return big[idx]
+    if mode == "step":            # every other element of a buffer twice the size
+        big = torch.full([2 * n for n in t.shape], fill, dtype=t.dtype)
+        idx = tuple(slice(0, 2 * n, 2) for n in t.shape)
+        big[idx] = t
+        return big[idx]
+    raise ValueError(mode)
 
 
 def _mer_pair(case, n, m):
